@@ -731,6 +731,9 @@ func (Prop) ID() string { return "C09" }
 func (Prop) Gen(seed int64, tier string) *harness.Case {
 	r := harness.Rand(seed)
 	g := &gen{r: r, budget: 8 + r.Intn(40)}
+	if tier == "thorough" && r.Intn(3) == 0 {
+		g.budget = 40 + r.Intn(80)
+	}
 	w := Work{Prog: g.stmts(gctx{inFunc: true, showE: true}, 5)} // `return` is legal at top level too
 	if r.Intn(2) == 0 {
 		w.Tail = 1 + r.Intn(98)
